@@ -45,9 +45,26 @@ def gen(depth, leaves):
             e_ = a - rng.choice(leaves[:1])[0]
             KINK[0] = True
             return (e_ * aml.abs(e_), "signed_square(%s)" % da) if rng.random() < 0.5 else (aml.abs(e_) * e_, "signed_square'(%s)" % da)
+    if r_ < 0.3 and depth >= 1:
+        # the piecewise operator if_else(condition, a, b) as a SUB-expression: whatever consumes it (a product, a power, exp) sees the selected branch
+        vs = [l for l in leaves if hasattr(l[0], "is_variable_type") and l[0].is_variable_type()]
+        if vs:
+            cv, dcv = rng.choice(vs)
+            thr = rng.choice([0.5, 1.0, 1.3])
+            a, da = gen(depth - 1, leaves)
+            b, db = gen(depth - 1, leaves)
+            a = a if hasattr(a, "last_node") else E.Float(a)
+            b = b if hasattr(b, "last_node") else E.Float(b)
+            KINK[0] = True
+            cond = E.inequality(cv, ub=thr) if rng.random() < 0.5 else E.inequality(cv, lb=thr)
+            return E.if_else(cond, a, b), "if_else(%s ? %r, %s, %s)" % (dcv, thr, da, db)
     nm, f = rng.choice(BIN)
     a, da = gen(depth - 1, leaves)
     b, db = (a, da) if rng.random() < 0.2 else gen(depth - 1, leaves)
+    if nm == "pow" and PEXP and rng.random() < 0.35:
+        # an exponent that is a PARAMETER (its value may be exactly 0 or 1 when the expression is built and is changed later)
+        a, da = a * a + 0.3, "(%s^2+0.3)" % da
+        return a ** PEXP[0], "(%s pow param_exponent)" % da
     if nm == "div":
         b, db = b * b + 0.7, "(%s^2+0.7)" % db
     if nm == "pow":
@@ -61,6 +78,9 @@ def gen(depth, leaves):
 
 KINK = [False]
 KINKS = {}
+PEXP = []
+SIDE = {}
+KEEP = []          # every constraint ever built stays alive: KINKS / SIDE are keyed by id()
 
 
 def check_model(m, cons, vars_, tag, failures):
@@ -80,6 +100,11 @@ def check_model(m, cons, vars_, tag, failures):
         if not (abs(got - ref) <= 1e-9 * max(1, abs(ref)) or (math.isnan(ref) and math.isnan(got))):
             failures.append(dict(tag=tag, what="residual of %s: compiled %r, direct evaluation %r" % (c.name, float(got), float(ref))))
             ok = False
+        if id(c) in SIDE:
+            want_side = SIDE[id(c)]()
+            if not (abs(got - want_side) <= 1e-9 * max(1, abs(want_side))):
+                failures.append(dict(tag=tag, what="residual of %s: compiled %r, value from the base and the parameter's current value %r" % (c.name, float(got), float(want_side))))
+                ok = False
         ad = c.reverse_ad()
         for v in vars_:
             if v.index is None:
@@ -121,6 +146,9 @@ for it in range(N):
         vars_.append(v)
     p = aml.Param(rng.uniform(0.5, 3.0))
     m.p = p
+    pe = aml.Param(rng.choice([1.0, 0.0, 2.0, 1.852]))
+    m.pe = pe
+    PEXP[:] = [pe]
     shared = E.Float(rng.choice([2.5, 0.75]))
     leaves = [(v, v.name) for v in vars_] + [(p, "p"), (shared, "shared"), (rng.uniform(0.1, 3), "num")]
     cons = []
@@ -128,7 +156,7 @@ for it in range(N):
     nsteps = rng.randint(2, 5)
     k = 0
     for step in range(nsteps):
-        action = rng.choice(["add", "add", "add_cond", "remove", "set_value", "load_and_restore", "add_dict", "del_dict", "add_prefix", "remove_last_cond"])
+        action = rng.choice(["add", "add", "add_cond", "remove", "set_value", "load_and_restore", "add_dict", "del_dict", "add_prefix", "remove_last_cond", "add_param_pow"])
         try:
             if action == "add" or not cons:
                 KINK[0] = False
@@ -140,6 +168,19 @@ for it in range(N):
                 setattr(m, "c%d" % k, c)
                 cons.append(c)
                 history.append("add c%d: %s" % (k, d))
+                k += 1
+            elif action == "add_param_pow":
+                # base ** (a parameter): the reference value is computed from the base and the parameter's CURRENT value, independently of how the
+                # power node was built (an exponent that is exactly 0 or 1 at build time must not be folded away: it is changed later)
+                KINK[0] = False
+                e, d = gen(2, leaves)
+                base = e * e + 0.3
+                c = aml.Constraint(base ** pe + shared * vars_[0])
+                KINKS[id(c)] = KINK[0]
+                setattr(m, "c%d" % k, c)
+                cons.append(c)
+                SIDE[id(c)] = (lambda base=base: (base.evaluate() if hasattr(base, "evaluate") else float(base)) ** pe.value + shared.value * vars_[0].value)
+                history.append("add c%d: (%s^2+0.3) pow param_exponent(=%r)" % (k, d, pe.value))
                 k += 1
             elif action == "add_prefix":
                 # a constraint on an expression object that has afterwards been extended into a larger one (the two share their operator
@@ -212,6 +253,7 @@ for it in range(N):
                 v = rng.choice(vars_)
                 v.value = rng.uniform(0.2, 2.0)
                 p.value = rng.uniform(0.5, 3.0)
+                pe.value = rng.choice([1.852, 0.5, 1.0, 0.0, 2.0])
                 history.append("set values")
             elif action == "load_and_restore" and cons:
                 # the solver loads another point into the compiled side; assigning the old values again must take effect
@@ -241,6 +283,7 @@ for it in range(N):
         except Exception as ex:
             failures.append(dict(tag="model %d" % it, what="building raised %r after %s" % (ex, history[-3:])))
             break
+        KEEP.extend(c_ for c_ in cons if not any(c_ is k_ for k_ in KEEP[-40:]))
         if not cons:
             continue
         evals += 1
